@@ -64,7 +64,7 @@ fn case_of(tier: Tier, mut i: u64) -> P {
 
 /// Hand a datagram to a fresh real peer that owns the destination identity.
 fn peer_accepts(p: &P, cfg: &Config, to: SimId, data: &[u8]) -> Result<(), ErrKind> {
-    let setup = Setup { id: to, cfg: cfg.clone(), codec: p.codec, policy: Policy { renew: RenewMode::Never, mask: 0, var_ids: p.var_ids }, hcfg: HandlerCfg { rel: Rel::SameKey, allow_mask: u64::MAX, err_on_short: false }, rng_seed: 5 };
+    let setup = Setup { id: to, cfg: cfg.clone(), codec: p.codec, policy: Policy { renew: RenewMode::Never, mask: 0, var_ids: p.var_ids }, hcfg: HandlerCfg { rel: Rel::SameKey, allow_mask: u64::MAX, err_on_short: false }, rng_seed: 5, acc_twin: false };
     let mut peer = Node::new(&setup);
     let rec = peer.call(Input::Data(data.to_vec()));
     match rec.result {
@@ -82,7 +82,7 @@ pub fn run_params(p: &P, seed: u64) -> RunOut {
     cfg.num_indirect_probes = NonZeroUsize::new(3).unwrap();
     cfg.notify_down_members = true;
     let own = SimId::new(1, 7);
-    let mut d = Driver::new(Setup { id: own, cfg: cfg.clone(), codec: p.codec, policy, hcfg: HandlerCfg { rel: Rel::Nothing, allow_mask: u64::MAX, err_on_short: false }, rng_seed: p.rng_seed });
+    let mut d = Driver::new(Setup { id: own, cfg: cfg.clone(), codec: p.codec, policy, hcfg: HandlerCfg { rel: Rel::Nothing, allow_mask: u64::MAX, err_on_short: false }, rng_seed: p.rng_seed, acc_twin: false });
     let mut s = Stream::new(seed ^ p.rng_seed, "c07-fill");
     // members 2..: mixed states so that the backlog holds updates of mixed sizes
     let all = ids(p.members);
